@@ -161,6 +161,8 @@ func (h *PackHandle) packSize() (int64, error) {
 // Close releases the .pack [sharedfile.SharedFile] and closes any
 // cached index. Idempotent.
 func (h *PackHandle) Close() error {
+	simhook.OnceEnter(h)
+	defer simhook.OnceExit(h)
 	return h.closeFn()
 }
 
